@@ -32,7 +32,7 @@ int main(void) {
     long nmemb, size, key;
     h_install_signals();
     h_install_handlers();
-    R = h_region(64);
+    R = h_region(1024);      /* 4 MB: nmemb * size of the largest generated array is below 1 MB */
     while (scanf("%ld %3s %d %ld %ld %ld", &id, fn, &place, &nmemb, &size, &key) == 6) {
         static long keys[4096];
         long i, nb = nmemb * size, rc = -9999, ret = -1;
